@@ -8,14 +8,16 @@ The regex-level half (C11 / `Props/C01Regex.lean`) provides these clauses for `R
 namespace RgVerif.Searcher
 open RgVerif RgVerif.Matcher RgVerif.Lines RgVerif.GrepSpec
 
-/-- the matcher-level contract, for terminator byte `t` -/
-structure MatchContract (t : Nat) (m : MatcherI) (Mt : Bytes → Nat → Nat → Prop) : Prop where
+/-- the matcher-level contract, for terminator byte `t`; `G hay w c` is a guard on line windows (e.g. "the
+window does not start with a UTF-8 continuation byte") under which context independence is available -/
+structure MatchContract (t : Nat) (m : MatcherI) (Mt : Bytes → Nat → Nat → Prop)
+    (G : Bytes → Nat → Nat → Prop) : Prop where
   bounds : ∀ {hay s e}, Mt hay s e → s ≤ e ∧ e ≤ hay.length
   noTerm : ∀ {hay s e}, Mt hay s e → ∀ x, s ≤ x → x < e → hay[x]? ≠ some t
   shortest_some : ∀ {hay i}, m.shortestAt hay 0 = some i → ∃ s, Mt hay s i ∧ ∀ s' e', Mt hay s' e' → s ≤ s'
   shortest_none : ∀ {hay}, m.shortestAt hay 0 = none → ∀ s e, ¬ Mt hay s e
-  /-- context independence on a line window `[w, w + c]` of any haystack -/
-  ctx : ∀ (hay : Bytes) (w c : Nat), (w = 0 ∨ hay[w - 1]? = some t) → (w + c = hay.length ∨ hay[w + c]? = some t) →
+  /-- context independence on a line window `[w, w + c]` of any haystack that passes the window guard `G` -/
+  ctx : ∀ (hay : Bytes) (w c : Nat), G hay w c → (w = 0 ∨ hay[w - 1]? = some t) → (w + c = hay.length ∨ hay[w + c]? = some t) →
     w + c ≤ hay.length → ∀ s e, w ≤ s → s ≤ e → e ≤ w + c →
     (Mt hay s e ↔ Mt ((hay.drop w).take c) (s - w) (e - w))
   cand_none : ∀ {hay}, m.findCandidateLine hay = none → ∀ s e, ¬ Mt hay s e
@@ -261,9 +263,13 @@ theorem inLine_of_win (L : Layout t buf sl) (hlen : buf.length = offsetAt sl sl.
   exact hnt (List.mem_of_mem_take hm)
 
 
-variable {cfg : Config} {m : MatcherI} {Mt : Bytes → Nat → Nat → Prop}
+variable {cfg : Config} {m : MatcherI} {Mt : Bytes → Nat → Nat → Prop} {G : Bytes → Nat → Nat → Prop}
 
-theorem pmLine_iff (hlt : cfg.lineTerm = .byte t) (hc : MatchContract t m Mt) (j : Nat) :
+/-- every line window of the buffer passes the guard -/
+def WinGuard (t : Nat) (buf : Bytes) (sl : List SLine) (G : Bytes → Nat → Nat → Prop) : Prop :=
+  ∀ p j, p ≤ j → j < sl.length → G (buf.drop (offsetAt sl p)) (offsetAt sl j - offsetAt sl p) (ct t sl j).length
+
+theorem pmLine_iff (hlt : cfg.lineTerm = .byte t) (hc : MatchContract t m Mt G) (j : Nat) :
     pmLine cfg m sl j = true ↔ ∃ s e, Mt (ct t sl j) s e := by
   unfold pmLine MatcherI.isMatch ct
   rw [hlt]
@@ -278,36 +284,38 @@ theorem pmLine_iff (hlt : cfg.lineTerm = .byte t) (hc : MatchContract t m Mt) (j
     | some i => rfl
 
 /-- a match inside a line taken alone is a match of the haystack, shifted into the line's window -/
-theorem lift_match (L : Layout t buf sl) (hlen : buf.length = offsetAt sl sl.length) (hc : MatchContract t m Mt)
-    (p j : Nat) (hpj : p ≤ j) (hj : j < sl.length) {s e : Nat} (hm : Mt (ct t sl j) s e) :
+theorem lift_match (L : Layout t buf sl) (hlen : buf.length = offsetAt sl sl.length) (hc : MatchContract t m Mt G)
+    (hG : WinGuard t buf sl G) (p j : Nat) (hpj : p ≤ j) (hj : j < sl.length) {s e : Nat} (hm : Mt (ct t sl j) s e) :
     Mt (buf.drop (offsetAt sl p)) (s + (offsetAt sl j - offsetAt sl p)) (e + (offsetAt sl j - offsetAt sl p)) ∧
       s ≤ e ∧ e ≤ (ct t sl j).length := by
   have W := window L hlen p j hpj hj
   obtain ⟨hse, hel⟩ := hc.bounds hm
   refine ⟨?_, hse, hel⟩
-  have := hc.ctx (buf.drop (offsetAt sl p)) (offsetAt sl j - offsetAt sl p) (ct t sl j).length W.before W.after W.le_len
+  have := hc.ctx (buf.drop (offsetAt sl p)) (offsetAt sl j - offsetAt sl p) (ct t sl j).length (hG p j hpj hj)
+    W.before W.after W.le_len
     (s + (offsetAt sl j - offsetAt sl p)) (e + (offsetAt sl j - offsetAt sl p)) (by omega) (by omega) (by omega)
   rw [W.slice_eq, Nat.add_sub_cancel, Nat.add_sub_cancel] at this
   exact this.2 hm
 
 /-- a match of the haystack that stays inside a line's window is a match of the line taken alone -/
-theorem lower_match (L : Layout t buf sl) (hlen : buf.length = offsetAt sl sl.length) (hc : MatchContract t m Mt)
-    (p j : Nat) (hpj : p ≤ j) (hj : j < sl.length) {s e : Nat} (hm : Mt (buf.drop (offsetAt sl p)) s e)
+theorem lower_match (L : Layout t buf sl) (hlen : buf.length = offsetAt sl sl.length) (hc : MatchContract t m Mt G)
+    (hG : WinGuard t buf sl G) (p j : Nat) (hpj : p ≤ j) (hj : j < sl.length) {s e : Nat} (hm : Mt (buf.drop (offsetAt sl p)) s e)
     (h1 : offsetAt sl j - offsetAt sl p ≤ s) (h2 : e ≤ offsetAt sl j - offsetAt sl p + (ct t sl j).length) :
     pmLine cfg m sl j = true ∨ cfg.lineTerm ≠ .byte t := by
   by_cases hlt : cfg.lineTerm = .byte t
   · left
     have W := window L hlen p j hpj hj
     obtain ⟨hse, _⟩ := hc.bounds hm
-    have := hc.ctx (buf.drop (offsetAt sl p)) (offsetAt sl j - offsetAt sl p) (ct t sl j).length W.before W.after
-      W.le_len s e h1 hse h2
+    have := hc.ctx (buf.drop (offsetAt sl p)) (offsetAt sl j - offsetAt sl p) (ct t sl j).length (hG p j hpj hj)
+      W.before W.after W.le_len s e h1 hse h2
     rw [W.slice_eq] at this
     exact (pmLine_iff hlt hc j).2 ⟨_, _, this.1 hm⟩
   · exact Or.inr hlt
 
 /-- no line in `[p, j)` matches, given that every match of the haystack starts at or after `lo ≥` the window of `j` -/
 theorem no_match_before (L : Layout t buf sl) (hlen : buf.length = offsetAt sl sl.length)
-    (hlt : cfg.lineTerm = .byte t) (hc : MatchContract t m Mt) (p j : Nat) (hj : j ≤ sl.length)
+    (hlt : cfg.lineTerm = .byte t) (hc : MatchContract t m Mt G) (hG : WinGuard t buf sl G) (p j : Nat)
+    (hj : j ≤ sl.length)
     (hlastterm : ∀ j', j' < j → j' + 1 = sl.length →
       offsetAt sl j' + (ct t sl j').length + 1 = offsetAt sl (j' + 1))
     (hleft : ∀ s' e', Mt (buf.drop (offsetAt sl p)) s' e' → offsetAt sl j - offsetAt sl p ≤ s') :
@@ -316,7 +324,7 @@ theorem no_match_before (L : Layout t buf sl) (hlen : buf.length = offsetAt sl s
   rw [Bool.eq_false_iff]
   intro hpm
   obtain ⟨s, e, hm⟩ := (pmLine_iff hlt hc j').1 hpm
-  obtain ⟨hl, hse, hel⟩ := lift_match L hlen hc p j' h1 (by omega) hm
+  obtain ⟨hl, hse, hel⟩ := lift_match L hlen hc hG p j' h1 (by omega) hm
   have := hleft _ _ hl
   have W := window L hlen p j' h1 (by omega)
   have hpo : offsetAt sl p ≤ offsetAt sl j' := off_mono sl h1
@@ -327,7 +335,8 @@ theorem no_match_before (L : Layout t buf sl) (hlen : buf.length = offsetAt sl s
 
 /-- **the matcher-level contract makes the matcher line safe on every buffer** (one-byte terminator) -/
 theorem lineSafe_of_contract (L : Layout t buf sl) (hlen : buf.length = offsetAt sl sl.length)
-    (hlt : cfg.lineTerm = .byte t) (hc : MatchContract t m Mt) : LineSafe cfg m buf sl := by
+    (hlt : cfg.lineTerm = .byte t) (hc : MatchContract t m Mt G) (hG : WinGuard t buf sl G) :
+    LineSafe cfg m buf sl := by
   have hasb : cfg.lineTerm.asByte = t := by rw [hlt]; rfl
   constructor
   · -- none
@@ -335,7 +344,7 @@ theorem lineSafe_of_contract (L : Layout t buf sl) (hlen : buf.length = offsetAt
     rw [Bool.eq_false_iff]
     intro hpm
     obtain ⟨s, e, hm⟩ := (pmLine_iff hlt hc j).1 hpm
-    exact hc.cand_none hnone _ _ (lift_match L hlen hc p j hpj hj hm).1
+    exact hc.cand_none hnone _ _ (lift_match L hlen hc hG p j hpj hj hm).1
   · -- confirmed
     intro p i hp hconf
     obtain ⟨s, hm, hleft⟩ := hc.shortest_some (hc.cand_conf hconf)
@@ -351,16 +360,16 @@ theorem lineSafe_of_contract (L : Layout t buf sl) (hlen : buf.length = offsetAt
         · exact hc.noTerm hm _ hw2 (by omega) ha
       refine ⟨j, hpj, ?_, ?_, ?_⟩
       · rw [hasb]; exact inLine_of_win L hlen p j i hpj hj (by omega) hie
-      · rcases lower_match (cfg := cfg) L hlen hc p j hpj hj hm hw1 hie with h | h
+      · rcases lower_match (cfg := cfg) L hlen hc hG p j hpj hj hm hw1 hie with h | h
         · exact h
         · exact absurd hlt h
-      · exact no_match_before L hlen hlt hc p j (by omega) (fun j' h1 h2 => by omega)
+      · exact no_match_before L hlen hlt hc hG p j (by omega) (fun j' h1 h2 => by omega)
           (fun s' e' h' => by have := hleft s' e' h'; omega)
     · right
       have hl : (buf.drop (offsetAt sl p)).length = buf.length - offsetAt sl p := by simp
       have hpn : offsetAt sl p ≤ buf.length := by rw [hlen]; exact off_mono sl (by omega)
       refine ⟨by omega, by rw [hasb]; exact hterm, ?_⟩
-      have hnb := no_match_before L hlen hlt hc p sl.length (Nat.le_refl _)
+      have hnb := no_match_before L hlen hlt hc hG p sl.length (Nat.le_refl _)
         (fun j' h1 h2 => by
           have : j' = sl.length - 1 := by omega
           subst this
@@ -378,7 +387,7 @@ theorem lineSafe_of_contract (L : Layout t buf sl) (hlen : buf.length = offsetAt
       rw [Bool.eq_false_iff]
       intro hpm
       obtain ⟨s, e, hm⟩ := (pmLine_iff hlt hc j').1 hpm
-      obtain ⟨hl, hse, hel⟩ := lift_match L hlen hc p j' h1 (by omega) hm
+      obtain ⟨hl, hse, hel⟩ := lift_match L hlen hc hG p j' h1 (by omega) hm
       have W := window L hlen p j' h1 (by omega)
       have hpo : offsetAt sl p ≤ offsetAt sl j' := off_mono sl h1
       have hjj : offsetAt sl (j' + 1) ≤ offsetAt sl j := off_mono sl (by omega)
